@@ -200,6 +200,13 @@ fn run_one(sh: &Shape, plan: &PlanSpec) -> Obs {
                     ..Default::default()
                 });
             }
+            // registrations for a discoverable credential also ask for the credential properties (whatever the
+            // client does to answer that, a failure leaves the store as it was)
+            if sh.rk {
+                let mut e = opts.public_key.extensions.take().unwrap_or_default();
+                e.cred_props = Some(true);
+                opts.public_key.extensions = Some(e);
+            }
             drive!(client.register(&origin, opts, DefaultClientData)).map(|r| match r {
                 Ok(c) => Ok(c.response.authenticator_data.to_vec()),
                 Err(WebauthnError::AuthenticatorError(b)) => Err(b),
